@@ -340,3 +340,159 @@ func BadNStepMissing(parts []string, a, b, st uint, r bnd) (uint64, error) {
 	}
 	return bits(start, end, step), nil
 }
+
+// ---- list terms: every term of a list reaches the validating call ----
+
+const star = 1 << 63
+
+func oneTerm(s string, r bnd) (uint64, error) {
+	if s == "*" {
+		return bits(r.lo, r.hi, 1) | star, nil
+	}
+	v, err := parse(s)
+	if err != nil {
+		return 0, err
+	}
+	if v < r.lo || v > r.hi {
+		return 0, errors.New("out of range")
+	}
+	return bits(v, v, 1), nil
+}
+
+func split(s string) []string {
+	var out []string
+	cur := ""
+	for _, c := range s {
+		if c == ',' {
+			out = append(out, cur)
+			cur = ""
+		} else {
+			cur += string(c)
+		}
+	}
+	return append(out, cur)
+}
+
+func GoodListAll(s string, r bnd) (uint64, error) {
+	var acc uint64
+	for _, t := range split(s) {
+		b, err := oneTerm(t, r)
+		if err != nil {
+			return acc, err
+		}
+		acc |= b
+	}
+	return acc, nil
+}
+
+func GoodListLateCheck(s string, r bnd) (uint64, error) {
+	var acc uint64
+	var failure error
+	terms := split(s)
+	for i := 0; i < len(terms); i++ {
+		b, e := oneTerm(terms[i], r)
+		if e != nil {
+			failure = e
+			break
+		}
+		acc |= b
+	}
+	if failure != nil {
+		return 0, failure
+	}
+	return acc, nil
+}
+
+func GoodListSkipEmpty(s string, r bnd) (uint64, error) {
+	var acc uint64
+	for _, t := range split(s) {
+		if t == "" {
+			continue
+		}
+		b, err := oneTerm(t, r)
+		if err != nil {
+			return 0, fmt.Errorf("term %q: %w", t, err)
+		}
+		acc |= b
+	}
+	return acc, nil
+}
+
+func BadListStopAtStar(s string, r bnd) (uint64, error) {
+	var acc uint64
+	for _, t := range split(s) {
+		b, err := oneTerm(t, r)
+		if err != nil {
+			return acc, err
+		}
+		acc |= b
+		if acc&star != 0 {
+			break // everything is selected already
+		}
+	}
+	return acc, nil
+}
+
+func BadListSkipAfterStar(s string, r bnd) (uint64, error) {
+	var acc uint64
+	for _, t := range split(s) {
+		if acc&star != 0 {
+			continue
+		}
+		b, err := oneTerm(t, r)
+		if err != nil {
+			return acc, err
+		}
+		acc |= b
+	}
+	return acc, nil
+}
+
+func BadListReturnAtStar(s string, r bnd) (uint64, error) {
+	var acc uint64
+	for _, t := range split(s) {
+		b, err := oneTerm(t, r)
+		if err != nil {
+			return acc, err
+		}
+		if b&star != 0 {
+			return b, nil
+		}
+		acc |= b
+	}
+	return acc, nil
+}
+
+// ---- error discipline: the first failure copied into a local and the loop left ----
+
+func GoodErrFirstFailureBreak(ss []string) (uint, error) {
+	var sum uint
+	var failure error
+	for _, s := range ss {
+		v, err := parse(s)
+		if err != nil {
+			failure = err
+			break
+		}
+		sum += v
+	}
+	if failure != nil {
+		return 0, failure
+	}
+	return sum, nil
+}
+
+func BadErrFirstFailureDropped(ss []string) (uint, error) {
+	var sum uint
+	var failure error
+	for _, s := range ss {
+		v, err := parse(s)
+		if err != nil {
+			failure = err
+			break
+		}
+		sum += v
+	}
+	_ = failure
+	return sum, nil
+}
